@@ -41,7 +41,7 @@ type Eng struct {
 }
 
 func loadProgram(repo string, patterns []string) (*Loaded, error) {
-	cfg := &packages.Config{Mode: packages.LoadAllSyntax, Dir: repo, BuildFlags: []string{"-tags=verif"}, Env: os.Environ()}
+	cfg := &packages.Config{Mode: packages.LoadAllSyntax | packages.NeedModule, Dir: repo, BuildFlags: []string{"-tags=verif"}, Env: os.Environ()}
 	pkgs, err := packages.Load(cfg, patterns...)
 	if err != nil {
 		return nil, err
@@ -222,6 +222,7 @@ func (e *Eng) verifyFunc(fn *ssa.Function, sp *FuncSpec, known *knownFindings) *
 			}
 			o := r.oblige(exit, "ensures", labelOr(c, i), c.Text, f)
 			o.replay = &replayInfo{results: results}
+			o.clause = c
 			if kf := known.match(o); kf != nil {
 				if ex, err := ecx.boolExpr(kf.except); err == nil {
 					o.exceptObl = &Obligation{Name: o.Name + "[except]", Kind: o.Kind, Func: o.Func, Text: c.Text + " unless " + kf.exceptText,
